@@ -400,6 +400,10 @@ Definition max_name_len : nat := 250.      (* util.MaxMeasurementLength *)
 Definition max_key_len : nat := 255.       (* util.MaxTagNameLength, util.MaxFieldNameLength *)
 Definition max_tagval_len : Z := 65536.  (* util.MaxTagValueLength *)
 
+(* the value part of Field.unmarshal: the string path is taken as soon as the text contains an unescaped quote *)
+Definition parse_value (c : cfg) (v : bytes) : result fval :=
+  if has_unesc_quote v then parse_str_field c v else parse_num_field c v.
+
 (* Field.unmarshal *)
 Definition parse_field (c : cfg) (s : bytes) : result (bytes * fval) :=
   match split_unesc c_eq false s with
@@ -410,8 +414,7 @@ Definition parse_field (c : cfg) (s : bytes) : result (bytes * fval) :=
       | [] => Err
       | _ =>
           if Nat.ltb max_key_len (length k) then Err
-          else if has_unesc_quote v then bind (parse_str_field c v) (fun x => Ok (k, x))
-          else bind (parse_num_field c v) (fun x => Ok (k, x))
+          else bind (parse_value c v) (fun x => Ok (k, x))
       end
   end.
 
